@@ -252,7 +252,7 @@ def maskedByLocalU32 (d : Desc) (all : List Field) (f : Field) : Bool :=
   match f.mask with
   | some (.field j, _) =>
     match all[j]? with
-    | some g => (match d.get? g.ty with | some (.prim .u32) => true | _ => false)
+    | some g => !g.isBit && (match d.get? g.ty with | some (.prim .u32) => true | _ => false)
     | none => false
   | _ => false
 
